@@ -502,16 +502,16 @@ def _alarm(signum, frame):
 
 
 def decide(hist, cfgs, rcfg, plog):
-    """one call of the real decision function (guarded by a 1 s timer that keeps firing: a wrong
+    """one call of the real decision function (guarded by a 0.5 s timer that keeps firing: a wrong
     jump offset can make slide() spin forever, and one alarm may be swallowed, e.g. inside a __del__)"""
     import signal
 
     old = signal.signal(signal.SIGALRM, _alarm)
-    signal.setitimer(signal.ITIMER_REAL, 1.0, 0.2)
+    signal.setitimer(signal.ITIMER_REAL, 0.5, 0.1)
     try:
         return ("ok", _LIB["F"].compute_next_steps(hist, cfgs, rcfg, plog))
     except ImplHang:
-        return ("exc", "no result within 1 s (endless slide)")
+        return ("exc", "no result within 0.5 s (endless slide)")
     except Exception as e:  # noqa
         return ("exc", f"{type(e).__name__}: {e}"[:300])
     finally:
@@ -772,7 +772,7 @@ def explore(task):
     q = deque()
     r0 = ref_run(P, (), W.tab)
 
-    def push_user_children(ahist, hist, r, n_user, dev, depth):
+    def push_user_children(ahist, hist, r, n_user, dev, depth, zeros):
         cands = []
         for i in [r["pending_user"], "u0", "j0", unk] + sorted(r["susp"].values()):
             if i is not None and i not in cands:
@@ -792,11 +792,11 @@ def explore(task):
                 cost, terminal = 1, False
             if dev + cost > max_dev:
                 continue
-            q.append((ah2, hist + W.user_events(i, not hist), r2, n_user + 1, dev + cost, depth + 1, terminal))
+            q.append((ah2, hist + W.user_events(i, not hist), r2, n_user + 1, dev + cost, depth + 1, terminal, zeros))
 
-    push_user_children((), [], r0, 0, 0, 0)
+    push_user_children((), [], r0, 0, 0, 0, 0)
     while q:
-        ahist, hist, r, n_user, dev, depth, terminal = q.popleft()
+        ahist, hist, r, n_user, dev, depth, terminal, zeros = q.popleft()
         counts["states"] += 1
         counts["traces_validated_against_impl"] += 1
         counts["max_history_len"] = max(counts["max_history_len"], len(hist))
@@ -836,22 +836,24 @@ def explore(task):
             counts["user_points"] += 1
             if terminal or not strict or n_user >= max_user:
                 continue
-            push_user_children(ahist, hist, r, n_user, dev, depth)
+            push_user_children(ahist, hist, r, n_user, dev, depth, zeros)
             continue
         h2 = hist + steps
         if steps[-1]["type"] == "StartInternalSystemAction":
             counts["action_points"] += 1
             steps[-1]["is_system_action"] = False  # RuntimeV1_0._compute_next_steps
             for res in W.results:
+                if res == 0 and zeros >= opts["max_zero"]:
+                    continue
                 ah2 = ahist + (("done", step[1], res),)
                 q.append((ah2, h2 + W.action_events(h2, res), ref_run(P, ah2, W.tab) if strict else r,
-                          n_user, dev, depth + 1, terminal))
+                          n_user, dev, depth + 1, terminal, zeros + (res == 0)))
         elif step is not None:
             ah2 = ahist + (("bot", step[1]),)
-            q.append((ah2, h2, ref_run(P, ah2, W.tab) if strict else r, n_user, dev, depth + 1, terminal))
+            q.append((ah2, h2, ref_run(P, ah2, W.tab) if strict else r, n_user, dev, depth + 1, terminal, zeros))
         else:
             # only a ContextUpdate was decided: the runtime calls the decision function again
-            q.append((ahist, h2, ref_run(P, ahist, W.tab) if strict else r, n_user, dev, depth + 1, terminal))
+            q.append((ahist, h2, ref_run(P, ahist, W.tab) if strict else r, n_user, dev, depth + 1, terminal, zeros))
     # the first histories once more on the used configs, after every other call was made
     for ahist, hist, before in first_nodes:
         if before is None:
@@ -917,7 +919,8 @@ def run(rep, tier):
 
     lib()
     seed = rep.seed
-    opts = {"max_user": 4, "max_dev": 1 if tier == "quick" else 2, "max_depth": 40, "seed": seed}
+    opts = {"max_user": 4, "max_dev": 1 if tier == "quick" else 2, "max_zero": 1 if tier == "quick" else 2,
+            "max_depth": 40, "seed": seed}
     groups = plan(tier)
     ts = []
     totals = {}
